@@ -81,6 +81,12 @@ def run_obligation(law, cfg, pristine, timeout_ms, budget_s):
                 out['validated'] = out.get('validated', 0) + 1
                 if rep0.get('holds') is not True:
                     out['harness_error'] = 'law holds symbolically for %s but not on the pristine code: %s' % (ops0, rep0)
+                    if rep0.get('holds') is False and 'salvaged' not in out:
+                        # the encoding diverges from the implementation here (reported, exit 3), but the REAL classes break the
+                        # law on these operands: that is a violation in its own right, found by replay of a path model
+                        out['salvaged'] = dict(key='%s %s' % (law, ' '.join('%s=%s' % kv for kv in sorted(cfg.items()))),
+                                               input=dict(cfg=cfg, ops=ops0), replay=rep0,
+                                               note='found while validating a path model against the implementation')
         if e.check(neg):
             m = e.solver.model()
             vals = [m.eval(v, model_completion=True).as_long() for v in (a, b, c, d)]
@@ -107,6 +113,8 @@ def run_obligation(law, cfg, pristine, timeout_ms, budget_s):
             out['violation'] = dict(key='%s %s' % (law, ' '.join('%s=%s' % kv for kv in sorted(cfg.items()))), input=dict(cfg=cfg, ops=ops), replay=rep)
         else:
             out['harness_error'] = 'counterexample %s does not reproduce on the pristine code: %s' % (ops, rep)
+    if not out.get('violation') and out.get('salvaged'):
+        out['violation'] = out['salvaged']
     return out, eng.stats
 
 
